@@ -3,6 +3,7 @@ DefRecv = 4194304
 DefSend = 2147483647
 Cap = 8388608
 Big = 4194400
+H = 4194320
 S = 40
 L = 60
 Mutant = 1
